@@ -149,6 +149,15 @@ Theorem C03_counter_counts_scanned : forall q blanks AND sh (c : cfg) E cs (recs
 Proof. exact counter_counts_scanned. Qed.
 Print Assumptions C03_counter_counts_scanned.
 
+(** sum() of a header against its specification: the total of that cell over the scanned lines *)
+Theorem C03_sum_totals_scanned : forall q blanks AND sh (c : cfg) E cs (recs : list (line ustring)) x0 nm i,
+  wf sh -> parse false (ast_of sh) = Some (scanner c) -> q_scan c = false -> end_line c = Some E ->
+  end_of ustring recs = Some E -> will_run c = true -> sum_once nm i cs ->
+  num_of (lookup nm (vars (x mx (st ustring mx (run_from ustring mx (core_m q blanks AND cs (Some E)) c (rs0 mx x0) None recs))))) =
+  num_of (lookup nm (vars x0)) + total_of blanks i (filter (want ustring sh) (number 0 recs)).
+Proof. exact sum_totals_scanned. Qed.
+Print Assumptions C03_sum_totals_scanned.
+
 Example C03_tally_once_nonvacuous :
   tally_once 1 [CB (BExists 0); CAgg (Tally 1); CAgg (First 7 1); CAct (Agg (AssignK 5 [116] NCount))] /\
   wf (From 1) /\ parse false (ast_of (From 1)) = Some (mkSc [] (Some 1) None true).
